@@ -164,6 +164,8 @@ def foBuiltins : List String :=
    "second", "list", "array", "len", "append", "concat", "aget", "aset", "hash", "hget", "hset", "trace"]
 
 theorem foBuiltins_not_ho : ∀ h ∈ foBuiltins, h ≠ "force" ∧ h ≠ "apply" ∧ h ≠ "map" := by decide
+/-- `substitute` (C16) reads the thunk table: not first-order either -/
+theorem foBuiltins_not_substitute : ∀ h ∈ foBuiltins, h ≠ "substitute" := by decide
 
 /-- a name a `def`/`set`/`let`/`letseq` of the fragment may bind -/
 def okBinder (x : String) : Bool := !foBuiltins.contains x
